@@ -5,7 +5,8 @@ TIER="${1:-quick}"; RC=0
 for f in harness/x[0-9][0-9]_*.py; do
   grep -q "sys.exit(common.run_check(" "$f" || continue
   ID=$(basename "$f" | cut -c1-3 | tr 'a-z' 'A-Z')
-  ./check "$ID" --tier "$TIER" | tail -3
-  R=$?; [ "$R" -ne 0 ] && RC=1
+  OUT=$(./check "$ID" --tier "$TIER" 2>&1); R=$?
+  echo "$OUT" | tail -3
+  [ "$R" -ne 0 ] && RC=1
 done
 exit $RC
